@@ -21,6 +21,8 @@ def obligations(tier):
         Ob('E.dedup', 'E', 'unchanged data snapshotted twice: objects == distinct chunks; same/shared key uploads nothing; independent keys alias nothing',
            '4 data sets x 3x3 argument orders x 3x3 users x 2 concurrency x dir/file args = 1296', ['replicat.repository:Repository.snapshot', F['c2l']],
            module=Hh, func='e_dedup', timeout=900, shards=8),
+        Ob('E.ops', 'E', 'histories with deletes and cleans (destructive commands partly issued by another client object of the same user): referenced chunks stored; after clean objects == referenced',
+           'every 2nd of 15^3 histories = 1688', ['replicat.repository:Repository.snapshot', F['del'], F['clean']], module=Hh, func='e_dedup_ops', timeout=900, shards=8),
         Ob('E.hist', 'E', 'any 3 snapshots by A/B/C: per-family chunk objects == distinct referenced chunks; repeating the first uploads nothing',
            '9^3 = 729 histories', ['replicat.repository:Repository.snapshot'], module=Hh, func='e_dedup_hist', timeout=900, shards=4),
     ]
